@@ -133,6 +133,22 @@ func focusedCase(g *Gen) (string, Req) {
 		if g.Chance(1, 10) {
 			r.Source = ""
 		}
+		if g.Chance(1, 4) {
+			// a wildcard-TLD value and, elsewhere in the same list, a plain value covering a host whose public
+			// suffix is private or unknown: every value of the list must be considered, in any order
+			name := Pick(g, []string{"google", "example", "foo", "tracker", "myapp"})
+			host := name + "." + Pick(g, []string{"github.io", "zzunknown", "lan", "blogspot.com", "co.uk", "com"})
+			vals := []string{name + ".*", host}
+			if g.Bool() {
+				vals = append(vals, Pick(g, hostPool))
+			}
+			Shuffle(g, vals)
+			if g.Chance(1, 4) {
+				vals[g.Intn(len(vals))] = "~" + strings.TrimPrefix(vals[g.Intn(len(vals))], "~")
+			}
+			mods[len(mods)-1] = "domain=" + strings.Join(vals, "|")
+			r.Source = "https://" + Pick(g, []string{"", "www.", "a.b."}) + host + "/page"
+		}
 	case 2: // $denyallow on the request host (pattern must not pin the host)
 		vals := pickSome(g, hostPool, 1, 3)
 		mods = append(mods, "denyallow="+strings.Join(vals, "|"), "domain=example.org")
